@@ -353,7 +353,7 @@ def run(F, R, tier):
         body = F.mir(p, follow_async=False)
         use = result_use(body, bi)
         r7.site("caller %s: result %s" % (L.short(p), use), t["sp"])
-        if use == "dropped" or use == "ignored":
+        if use in ("dropped", "swallowed"):
             r7.fail((p, "verify-result", use), "%s discards the result of JwsValidationItem::verify" % L.short(p), t["sp"])
         elif use == "unwrapped":
             # a panic, not a false acceptance: reported under C16/C05 where the property says "never as a crash"
@@ -420,14 +420,20 @@ def extract_b64_default(F):
 UNWRAP = re.compile(r"^core::(result::Result|option::Option)::(unwrap|expect|unwrap_unchecked|unwrap_or_default|ok|is_ok|is_err|unwrap_or|unwrap_or_else)$")
 
 
+SWALLOW = re.compile(r"^core::result::Result::(ok|unwrap_or|unwrap_or_default|unwrap_or_else|is_ok|is_err|err|into_ok|map_or|map_or_else|iter)$")
+THROUGH_NO_SWALLOW = re.compile(M.PASS_THROUGH.pattern.replace("map_err|map|ok|and_then", "map_err|map|and_then").replace("|unwrap_or_default|unwrap_or|unwrap_or_else)\"\n", ")"))
+
+
 def result_use(body, call_bi):
     """How the Result produced by the call at call_bi is consumed: 'propagated' (`?`), 'returned', 'matched', 'unwrapped',
-    'ignored' (e.g. `.ok()`, `is_ok()` whose value is unused, `let _ =`), 'dropped'."""
+    'swallowed' (`.ok()`, `unwrap_or..`, `is_ok()`: the error is discarded), 'dropped'."""
     t = body.term(call_bi)
     seeds = {M.place_local(t["dst"])}
     if M.place_local(t["dst"]) == 0:
         return "returned"
-    tainted = body.taint_forward(seeds)
+    thr = re.compile(M.PASS_THROUGH.pattern.replace("core::result::Result::(map_err|map|ok|and_then|or_else|ok_or|as_ref|as_mut|as_deref|copied|cloned|transpose|unwrap_or_default|unwrap_or|unwrap_or_else)",
+                                                    "core::result::Result::(map_err|map|and_then|or_else|as_ref|as_mut|as_deref|copied|cloned|transpose)"))
+    tainted = body.taint_forward(seeds, through=thr)
     uses = set()
     for bi, b in enumerate(body.blocks):
         if b["cleanup"]:
@@ -446,13 +452,13 @@ def result_use(body, call_bi):
                     uses.add("propagated")
                 elif re.search(r"::(unwrap|expect)$", nm):
                     uses.add("unwrapped")
-                elif M.place_local(tt["dst"]) == 0:
+                elif SWALLOW.search(nm):
+                    uses.add("swallowed")
+                elif M.place_local(tt["dst"]) == 0 and thr.search(nm):
                     uses.add("returned")
-                elif not M.PASS_THROUGH.search(nm):
+                elif not thr.search(nm):
                     uses.add("passed:" + nm.rsplit("::", 1)[-1])
-        if tt["k"] == "yield" or tt["k"] == "return":
-            pass
-    for pref in ("propagated", "returned", "matched", "unwrapped"):
+    for pref in ("swallowed", "unwrapped", "propagated", "returned", "matched"):
         if pref in uses:
             return pref
     passed = [u for u in uses if u.startswith("passed:")]
